@@ -400,6 +400,10 @@ class ARModel(OLSModel):
             results = self.fit(Y)
             self.rho, _ = yule_walker(Y - results.predicted,
                                       order=self.order, df=self.df_resid)
+        # whiten the design with the final coefficients too: otherwise a later
+        # fit() whitens the data with the new rho but keeps the design (and its
+        # pseudo-inverse) whitened with the previous one
+        self.initialize(self.design)
 
     def whiten(self, X):
         """ Whiten a series of columns according to AR(p) covariance structure
